@@ -4,7 +4,7 @@
     document loop), [m] (which documents match), [lsimp] (what d.simplify folds the List query to); all
     theorems quantify over them, i.e. over all queries, and over all shards (any mix of tenants,
     tombstones, sub-repositories, duplicate names).  [strict = true] is SRC_TENANT_ENFORCEMENT_MODE=strict. *)
-From ZV Require Import Lib.Base Model.Tenant Proofs.Tenant Model.TenantListByName Proofs.TenantListByName.
+From ZV Require Import Lib.Base Model.Tenant Proofs.Tenant Model.TenantListByName Proofs.TenantListByName Model.TenantLoop Proofs.TenantLoop Proofs.TenantLoopRefine.
 
 (** Search, every output channel: each file match is a live matching document of a repository the caller
     has access to (and carries that repository's name/id and one of its sub-repository names), and every
@@ -28,6 +28,46 @@ Proof.
   exists r, ds, d. subst f. cbn. repeat split; auto. apply sub_name_cases.
 Qed.
 Print Assumptions C23_no_leak_search.
+
+(** The same for EVERY SearchOptions setting, with the document loop modelled in the order and control flow of the
+    code (Model/TenantLoop.v: outer loop nextFileMatch, inner skip loop with the guard sequence repository tombstone,
+    tenant.HasAccess, file tombstone, ShardRepoMaxMatchCount skip; lastRepoID / repoMatchCount bookkeeping;
+    ShardMaxMatchCount and cancellation exits): whatever ShardRepoMaxMatchCount / ShardMaxMatchCount [o], whatever the
+    match-tree iterator answers [nd], wherever the context is cancelled [cancel], whatever number of matches each file
+    match contributes [w] — every file match is a live, non-file-tombstoned, matching document of a repository the
+    caller has access to, and the maps only carry such repositories. *)
+Theorem C23_no_leak_search_all_options : forall c s scan o nd cancel m w,
+  let res := search_opts true c s scan o nd cancel m w in
+  (forall f, In f (sr_files res) ->
+     exists r ds d, In (r, ds) s /\ has_access true c (r_tenant r) = true /\ r_tomb r = false /\
+                    In d ds /\ d_ftomb d = false /\ m r d = true /\ f = mk_fm r d) /\
+  (forall p, In p (sr_urls res) ->
+     exists r, In r (map fst s) /\ has_access true c (r_tenant r) = true /\ In p (repo_url_pairs r)) /\
+  (forall p, In p (sr_frags res) ->
+     exists r, In r (map fst s) /\ has_access true c (r_tenant r) = true /\ In p (repo_frag_pairs r)).
+Proof. exact (search_opts_no_leak true). Qed.
+Print Assumptions C23_no_leak_search_all_options.
+
+(** The loop model refines to the [search] all other theorems of this file talk about, for the two option settings they
+    use: (1) no ShardRepoMaxMatchCount and a ShardMaxMatchCount that is not reached (the default 100000 of SetDefaults
+    unless the shard has more matches) — [search ... lim1 := false]; (2) ShardRepoMaxMatchCount = 1, the search run by
+    indexData.List — [search ... lim1 := true], given that every file match carries at least one line / chunk match.
+    Assumed: the match-tree iterator does not jump ahead of the loop position (jumping only skips non-matching
+    documents in /repo; trusted, C01's subject) and the context is not cancelled.  Hence non-interference,
+    completeness for the owner / the system context and the List theorems hold for the loop as coded. *)
+Theorem C23_loop_is_search_without_limits : forall strict c s scan o nd m w,
+  (o_repomax o <= 0)%Z -> (forall p, (nd p <= p)%nat) -> (forall r d, (0 <= w r d)%Z) ->
+  (o_shardmax o <= 0 \/ wsum w (flatten s) < o_shardmax o)%Z ->
+  search_opts strict c s scan o nd no_cancel m w = search strict c s scan false m.
+Proof. exact search_opts_unlimited. Qed.
+Print Assumptions C23_loop_is_search_without_limits.
+
+Theorem C23_loop_is_search_with_list_limit : forall strict c s scan o nd m w,
+  o_repomax o = 1%Z -> (forall p, (nd p <= p)%nat) -> (forall r d, (1 <= w r d)%Z) ->
+  (o_shardmax o <= 0 \/ wsum w (flatten s) < o_shardmax o)%Z ->
+  search_opts strict c s scan o nd no_cancel m w = search strict c s scan true m.
+Proof. exact search_opts_lim1. Qed.
+Print Assumptions C23_loop_is_search_with_list_limit.
 
 (** List: every listed name / ReposMap key belongs to a live repository the caller has access to, and
     the document statistic counts only documents of the caller's repositories. *)
@@ -163,3 +203,29 @@ Example C23_nonvacuous_sharded :
              [(leak_shard, (true, fun _ _ => true)); ([(leak_repo1, [])], (true, fun _ _ => true))])
   = [(2, 12); (3, 13)]%N.
 Proof. vm_compute. reflexivity. Qed.
+
+(** [own repository, 3 matching documents][tenant 2, first document matches][tombstoned][own, first document file-tombstoned]:
+    with ShardRepoMaxMatchCount = 1 tenant 1 gets the first document of its first repository and the first LIVE document
+    of its other repository; with the limit 2 two of each; ShardMaxMatchCount = 3 stops after three matches; tenant 2
+    gets one document of its own repository *)
+Example C23_nonvacuous_all_options :
+  let all := fun (_ : repo) (_ : doc) => true in
+  let one := fun (_ : repo) (_ : doc) => 1%Z in
+  let files o c := map fm_file (sr_files (search_opts true c layered_shard true o nd_id no_cancel all one)) in
+  files {| o_repomax := 1; o_shardmax := 100000 |} (CtxTenant 1) = [1001; 4002]%N /\
+  files {| o_repomax := 2; o_shardmax := 100000 |} (CtxTenant 1) = [1001; 1002; 4002; 4003]%N /\
+  files {| o_repomax := 0; o_shardmax := 3 |} (CtxTenant 1) = [1001; 1002; 1003]%N /\
+  files {| o_repomax := 0; o_shardmax := 100000 |} (CtxTenant 1) = [1001; 1002; 1003; 4002; 4003]%N /\
+  files {| o_repomax := 1; o_shardmax := 100000 |} (CtxTenant 2) = [2001]%N /\
+  files {| o_repomax := 1; o_shardmax := 100000 |} CtxSystem = [1001; 2001; 4002]%N.
+Proof. vm_compute. repeat split. Qed.
+
+Example C23_nonvacuous_refinement :
+  let all := fun (_ : repo) (_ : doc) => true in
+  let one := fun (_ : repo) (_ : doc) => 1%Z in
+  wsum one (flatten layered_shard) = 9%Z /\
+  search_opts true (CtxTenant 1) layered_shard true {| o_repomax := 1; o_shardmax := 100000 |} nd_id no_cancel all one
+    = search true (CtxTenant 1) layered_shard true true all /\
+  search_opts true (CtxTenant 1) layered_shard true {| o_repomax := 0; o_shardmax := 100000 |} nd_id no_cancel all one
+    = search true (CtxTenant 1) layered_shard true false all.
+Proof. vm_compute. repeat split. Qed.
